@@ -19,5 +19,5 @@ CHECK = dict(
     components={'real': ['electrumx.server.controller.Notifications', 'asyncio tasks (virtual-time loop)'],
                 'stub': ['block processor and mempool tracker (abstract reporter tasks)', 'sessions '
                          '(recording notify callback with scheduler-chosen latency)']},
-    required_probes=['heights_repeat', 'refresh_at_unreported_height'],
+    required_probes=['heights_fall', 'heights_repeat', 'refresh_at_unreported_height'],
 )
